@@ -92,6 +92,11 @@ func (w *World) Client() *http.Client {
 	return &http.Client{Transport: tr}
 }
 
+func envOn(name string) bool {
+	v := os.Getenv(name)
+	return v != "" && v != "0"
+}
+
 func runWorld(name string, seed uint64, replay []int32) *Result {
 	cfg := ""
 	if i := strings.Index(name, "/"); i >= 0 {
@@ -112,8 +117,8 @@ func runWorld(name string, seed uint64, replay []int32) *Result {
 		tape = sim.NewTape(seed)
 	}
 	k := sim.NewKernel(tape)
-	k.SetTrace(os.Getenv("VERIF_TRACE") != "")
-	if os.Getenv("VERIF_LOG") == "" {
+	k.SetTrace(envOn("VERIF_TRACE"))
+	if !envOn("VERIF_LOG") {
 		log.SetOutput(io.Discard)
 	} else {
 		log.SetFlags(log.Lmicroseconds)
@@ -123,7 +128,7 @@ func runWorld(name string, seed uint64, replay []int32) *Result {
 	http.DefaultTransport.(*http.Transport).Proxy = nil
 	websocket.DefaultDialer = &websocket.Dialer{NetDialContext: sim.DialContext, HandshakeTimeout: 45 * time.Second}
 	uuid.SetRand(&sim.TapeReader{R: tape.Sub("uuid")})
-	tier := os.Getenv("VERIF_TIER")
+	tier := strings.TrimSpace(os.Getenv("VERIF_TIER"))
 	if tier == "" {
 		tier = "quick"
 	}
@@ -145,13 +150,13 @@ func runWorld(name string, seed uint64, replay []int32) *Result {
 	res.TapeLen = len(tape.Rec)
 	res.Sample = w.Sample
 	res.Exits = k.Exits
-	if os.Getenv("VERIF_EMIT_TAPE") != "" {
+	if envOn("VERIF_EMIT_TAPE") {
 		res.Tape = tape.Rec
 		if os.Getenv("VERIF_EMIT_TAPE") == "2" {
 			res.Labels = tape.Labels
 		}
 	}
-	if os.Getenv("VERIF_TRACE") != "" {
+	if envOn("VERIF_TRACE") {
 		res.Trace = string(k.Trace())
 	}
 	switch {
